@@ -1,9 +1,4 @@
 INIT Init
 NEXT Next
-CONSTANTS
-  Procs = {"p1"}
-  Ids = {"a"}
-  Vals = {"v1"}
-  MaxOps = 1
 INVARIANT HistoryOK
 CHECK_DEADLOCK FALSE
